@@ -77,6 +77,8 @@ def _fields(ctx, R, roles, T, sites):
         cmdv = cmd[1]
         owner = ("io:" + f.name) if f.cls is roles.io_cls else f.name
         allowed = WHO_MAY_SEND.get(cmdv, set())
+        if cmdv == b"OKAY" and roles.dev["_okay"] is None:
+            allowed = {"_read_until"}       # no acknowledgement helper: _read_until builds the OKAY itself
         R.check(owner in allowed, "WMS", "%s|%s" % (cmdv.decode("ascii", "replace"), f.qualname),
                 "%s is constructed in %s" % (cmdv.decode(), f.name),
                 "%s is constructed in %s; only %s may send it" % (cmdv.decode("ascii", "replace"), f.qualname, ", ".join(sorted(allowed)) or "nobody"), f.loc(n.ast))
@@ -192,9 +194,10 @@ def _one_okay(ctx, R, roles, T):
     okay = roles.dev["_okay"]
     ru = roles.dev["_read_until"]
     cg = ctx.cg
-    callers = set(cs.func for cs in cg.callers_of(okay))
-    R.check(callers == {ru}, "ACK", okay.qualname + "|callers", "_okay is called only from _read_until",
-            "_okay is called from %s; acknowledgements may only be sent for a WRTE delivered by _read_until" % ", ".join(sorted(c.qualname for c in callers)) if callers else "_okay is never called: device WRITEs are not acknowledged", okay.loc())
+    if okay is not None:
+        callers = set(cs.func for cs in cg.callers_of(okay))
+        R.check(callers == {ru}, "ACK", okay.qualname + "|callers", "_okay is called only from _read_until",
+                "_okay is called from %s; acknowledgements may only be sent for a WRTE delivered by _read_until" % ", ".join(sorted(c.qualname for c in callers)) if callers else "_okay is never called: device WRITEs are not acknowledged", okay.loc())
     g = ctx.cfg(ru)
     df = ctx.df(ru)
     pumps = callee_nodes(ctx, ru, roles.pump)
@@ -203,7 +206,14 @@ def _one_okay(ctx, R, roles, T):
         return
     pn, pc = pumps[0]
     pterm = T.term(ru, pn, pc)
-    oks = callee_nodes(ctx, ru, okay)
+    if okay is not None:
+        oks = callee_nodes(ctx, ru, okay)
+    else:
+        # no helper: the acknowledgement is the OKAY message _read_until sends itself (its fields are checked by TERM-msg)
+        oks = []
+        for (f_, n_, c_, b_) in message_sites(ctx, roles, T):
+            if f_ is ru and b_.get("command") == ("c", b"OKAY"):
+                oks.append((n_, c_))
     R.check(len(oks) == 1 and not oks[0][0].loops, "ACK", ru.qualname + "|ack-sites", "one acknowledgement site, not in a loop",
             "_read_until has %d acknowledgement sites (or one inside a loop): a WRTE must be acknowledged exactly once" % len(oks), ru.loc())
     # the test cmd == WRTE on the command of the packet just delivered
@@ -233,8 +243,13 @@ def _one_okay(ctx, R, roles, T):
         R.check(g.dominates([pn], tn) and g.dominates([tn], on), "ACK", ru.qualname + "|order", "read, then test, then acknowledge", None, ru.loc())
         # acknowledged on the same stream object
         oc = oks[0][1]
-        arg = oc.args[0] if oc.args else None
         pa = cg.site(pc).bind(roles.pump).get("adb_info")
+        if okay is not None:
+            arg = oc.args[0] if oc.args else None
+        else:
+            # the transaction object the OKAY is sent on: second argument of the send(...) that carries it
+            sc = [cc for cc in node_calls(on) if call_attr(cc) == "send"]
+            arg = sc[0].args[1] if sc and len(sc[0].args) > 1 else None
         R.check(arg is not None and pa is not None and key(arg) == key(pa) and varkey(unawait(arg)) in ru.params, "ACK", ru.qualname + "|same-stream",
                 "acknowledgement goes to the stream that was read", "the acknowledgement is sent for a different transaction object than the one read", ru.loc(on.ast))
     # returns (cmd, data) of that packet
